@@ -178,17 +178,17 @@ namespace Gql.Text
 raw lines are: an empty line if `before` is a line feed, the lines of `v`, an empty line if
 `after` is a line feed. -/
 theorem read_printed_lines (w : Nat) (v : List Nat) (m : Bool) (rest : List Nat) (st : LexState)
-    (hgood : GoodVal v) :
-    tokOf (readBlockString (printBlockStringW w v m ++ rest) st 0) =
-      .ok (blockTok st 0 (printBlockStringW w v m).length
+    (start ls : Nat) (hgood : GoodVal v) :
+    tokOf (readBlockStringLoop (printBlockStringW w v m ++ rest) st start 3 3 ls [] []) =
+      .ok (blockTok st start (printBlockStringW w v m).length
         (afterLines (pbsBefore (pbsFlags w v m)) ++ linesFrom [] v ++ afterLines (pbsAfter (pbsFlags w v m)))) := by
   have hopen : endsOpen v = true → pbsAfter (pbsFlags w v m) = [10] := pbsAfter_of_endsOpen w v m
   generalize hA : pbsAfter (pbsFlags w v m) = after at hopen
   have hafter : after = [] ∨ after = [10] := hA ▸ pbsAfter_cases _
-  unfold readBlockString printBlockStringW
+  unfold printBlockStringW
   simp only [hA]
   rcases pbsBefore_cases (pbsFlags w v m) with hb | hb <;> rw [hb]
-  · have := scan_value st 0 rest after hafter v.length v (Nat.le_refl _) [34, 34, 34] 3 st.lineStart [] []
+  · have := scan_value st start rest after hafter v.length v (Nat.le_refl _) [34, 34, 34] 3 ls [] []
       (by simp) hgood hopen
     simp only [List.length_cons, List.length_nil, Nat.zero_add, slice_self, List.append_nil,
       List.nil_append] at this
@@ -199,14 +199,14 @@ theorem read_printed_lines (w : Nat) (v : List Nat) (m : Bool) (rest : List Nat)
     congr 2
     simp [afterLines]
     omega
-  · have := scan_value st 0 rest after hafter v.length v (Nat.le_refl _) [34, 34, 34, 10] 4 4 []
+  · have := scan_value st start rest after hafter v.length v (Nat.le_refl _) [34, 34, 34, 10] 4 4 []
       [[]] (by simp) hgood hopen
     simp only [List.length_cons, List.length_nil, Nat.zero_add, slice_self, List.append_nil,
       List.nil_append] at this
     simp only [List.append_assoc, List.cons_append, List.nil_append, Nat.zero_add,
       afterLines, List.map_nil, List.map_cons, List.length_append, List.length_cons, List.length_nil]
     simp only [List.cons_append, List.nil_append] at this
-    rw [blk_lf _ st 0 3 3 st.lineStart [] [] (by simp)]
+    rw [blk_lf _ st start 3 3 ls [] [] (by simp)]
     simp only [slice_self, List.append_nil, List.nil_append]
     rw [this]
     congr 2
@@ -214,14 +214,14 @@ theorem read_printed_lines (w : Nat) (v : List Nat) (m : Bool) (rest : List Nat)
     omega
 
 /-- C08-2 (any width, both settings of `minimize`). -/
-theorem printBlockStringW_roundtrip (w : Nat) (v : List Nat) (m : Bool) (rest : List Nat) (st : LexState)
-    (hs : ∀ c ∈ v, isScalar c = true) (hrep : BlockRepresentable v) :
-    tokOf (readBlockString (printBlockStringW w v m ++ rest) st 0) =
-      .ok (mkToken st .blockString 0 (printBlockStringW w v m).length (some v)) := by
+theorem printBlockStringW_roundtrip_loop (w : Nat) (v : List Nat) (m : Bool) (rest : List Nat) (st : LexState)
+    (start ls : Nat) (hs : ∀ c ∈ v, isScalar c = true) (hrep : BlockRepresentable v) :
+    tokOf (readBlockStringLoop (printBlockStringW w v m ++ rest) st start 3 3 ls [] []) =
+      .ok (mkToken st .blockString start (printBlockStringW w v m).length (some v)) := by
   by_cases hne : v = []
   · subst hne
     have hgood : GoodVal [] := by intro c hc; simp at hc
-    rw [read_printed_lines w [] m rest st hgood]
+    rw [read_printed_lines w [] m rest st start ls hgood]
     have hB : pbsBefore (pbsFlags w [] m) = [] := by simp [pbsFlags, pbsBefore, escapeTQ, reSplitNL, endsWith, startsBlank]
     have hA : pbsAfter (pbsFlags w [] m) = [] := by simp [pbsFlags, pbsAfter, escapeTQ, reSplitNL, endsWith]
     rw [hB, hA]
@@ -229,7 +229,7 @@ theorem printBlockStringW_roundtrip (w : Nat) (v : List Nat) (m : Bool) (rest : 
     simp [blockTok, afterLines, linesFrom, hd]
   · obtain ⟨h13, l0, M, xs, lN, hL, hxs, h0, hN, hU⟩ := representable_lines v hne hrep
     have hgood : GoodVal v := fun c hc => ⟨hs c hc, h13 c hc⟩
-    rw [read_printed_lines w v m rest st hgood, linesFrom_nil]
+    rw [read_printed_lines w v m rest st start ls hgood, linesFrom_nil]
     have hA := pbsAfter_cases (pbsFlags w v m)
     have hAl : afterLines (pbsAfter (pbsFlags w v m)) = [] ∨ afterLines (pbsAfter (pbsFlags w v m)) = [[]] := by
       rcases hA with h | h <;> rw [h] <;> simp [afterLines]
@@ -248,5 +248,13 @@ theorem printBlockStringW_roundtrip (w : Nat) (v : List Nat) (m : Bool) (rest : 
     rw [linesFrom_nil] at this
     simp only [List.nil_append] at this
     rw [this]
+
+/-- C08-2 (any width, both settings of `minimize`). -/
+theorem printBlockStringW_roundtrip (w : Nat) (v : List Nat) (m : Bool) (rest : List Nat) (st : LexState)
+    (hs : ∀ c ∈ v, isScalar c = true) (hrep : BlockRepresentable v) :
+    tokOf (readBlockString (printBlockStringW w v m ++ rest) st 0) =
+      .ok (mkToken st .blockString 0 (printBlockStringW w v m).length (some v)) := by
+  unfold readBlockString
+  exact printBlockStringW_roundtrip_loop w v m rest st 0 st.lineStart hs hrep
 
 end Gql.Text
